@@ -274,11 +274,11 @@ def run(chk):
     first_seen(chk)
     install_attempts(chk)
     finish_time_before_reboot(chk)
-    try:
-        import runmon
-        runmon.c18_run(chk)
-    except ImportError:
-        pass
+    import runmon, sutmon
+    runmon.c18_run(chk)
+    n0 = len(chk.obligations)
+    sutmon.monitor_start_update_check(chk, (1, 2))
+    chk.obligations = chk.obligations[:n0] + [o for o in chk.obligations[n0:] if o.name == 'install-attempt-outcome']
     chk.bounds.update({'clock values': 'full width', 'apps': '<= 2', 'stored values': 'arbitrary Option<i64> / Option<String>'})
     chk.assumptions += [
         'storage results symbolic in the three helper explorations; in the perform_update_check exploration reports are delivered, plan creation and policy approve, storage writes succeed, wall clock monotone within +-2^40 s',
